@@ -126,6 +126,7 @@ def inline_helpers(prog, f, depth=2):
         b["t"].pop("_bb", None)
         for s in b["s"]:
             s.pop("_pos", None)
+    ret_sites = []
     for bi, t, h in sites:
         h2 = inline_helpers(prog, h, depth - 1)
         k = len(mir["locals"])
@@ -143,7 +144,95 @@ def inline_helpers(prog, f, depth=2):
             if nb["t"]["k"] == "return":
                 nb["s"].append({"k": "assign", "p": dest, "rv": ["use", ["mv", [k]]], "sp": nb["t"]["sp"]})
                 nb["t"] = {"k": "goto", "t": cont, "sp": nb["t"]["sp"]}
+                ret_sites.append((len(mir["blocks"]), k, cont))
             mir["blocks"].append(nb)
+    _propagate_variants(mir, ret_sites)
     nf = ir.Func(raw, prog)
     nf.inlined = [h.key for _, _, h in sites]
     return nf
+
+
+def _variant_assigned(blk, k0):
+    for st in reversed(blk["s"]):
+        if st["k"] == "assign" and st["p"] == [k0] and st["rv"][0] == "agg":
+            return st["rv"][1].get("variant")
+        if st["k"] == "assign" and st["p"] and st["p"][0] == k0:
+            return None
+    return None
+
+
+def _retarget(t, old, new):
+    if t.get("t") == old and t["k"] in ("goto", "call", "assert", "drop"):
+        t["t"] = new
+        return True
+    return False
+
+
+def _propagate_variants(mir, ret_sites):
+    """path splitting at inlined `return Ok(..)` / `return Err(..)` sites whose continuation is the
+    caller's `?`: the continuation (Try::branch call + switch on its discriminant) is cloned per
+    return path and the clone's switch is replaced by a jump to the arm the known variant selects,
+    so that a comparison inside the helper is seen to lead either to the error exit or onwards.
+    The variant is taken from the return block itself or, when several paths share one return block,
+    from each predecessor that assigns the return place."""
+    blocks = mir["blocks"]
+
+    def clone(b):
+        c = copy.deepcopy(b)
+        c["t"].pop("_bb", None)
+        for x in c["s"]:
+            x.pop("_pos", None)
+        return c
+
+    for rb, k0, cont in ret_sites:
+        cb = blocks[cont]
+        t = cb["t"]
+        c = callee_of(t) if t["k"] == "call" else None
+        if not c or c.get("name") != "branch" or "t" not in t:
+            continue
+        sb = blocks[t["t"]]
+        st_ = sb["t"]
+        if st_["k"] != "switch" or not any(x["k"] == "assign" and x["rv"][0] == "discr" for x in sb["s"]):
+            continue
+
+        def arm_for(variant):
+            want = "0" if variant in ("Ok", "Some") else "1"
+            for v, tg in st_.get("arms", []):
+                if str(v) == want:
+                    return tg
+            return st_.get("else")
+
+        def split_from(src_block_index, variant):
+            target = arm_for(variant)
+            if target is None:
+                return None
+            c1, c2 = clone(cb), clone(sb)
+            i1, i2 = len(blocks), len(blocks) + 1
+            c1["t"]["t"] = i2
+            c2["t"] = {"k": "goto", "t": target, "sp": st_["sp"], "split": variant}
+            blocks.append(c1)
+            blocks.append(c2)
+            return i1
+
+        v0 = _variant_assigned(blocks[rb], k0)
+        if v0 in ("Ok", "Err", "Some", "None"):
+            i1 = split_from(rb, v0)
+            if i1 is not None:
+                blocks[rb]["t"]["t"] = i1
+            continue
+        # shared return block: split per predecessor
+        if any(st["k"] == "assign" and st["p"] and st["p"][0] == k0 for st in blocks[rb]["s"][:-1]):
+            continue
+        preds = [bi for bi, b in enumerate(blocks) if bi != rb and b["t"].get("t") == rb and b["t"]["k"] in ("goto", "call", "assert", "drop")]
+        for pb in preds:
+            v = _variant_assigned(blocks[pb], k0)
+            if v not in ("Ok", "Err", "Some", "None"):
+                continue
+            i1 = split_from(pb, v)
+            if i1 is None:
+                continue
+            r2 = clone(blocks[rb])
+            ir2 = len(blocks)
+            r2["t"]["t"] = i1
+            blocks.append(r2)
+            _retarget(blocks[pb]["t"], rb, ir2)
